@@ -9,7 +9,7 @@ from .seqgen import delay_value
 
 ID = "C19"
 ALLOWED_AXIOMS = []
-PROPS_FILES = ["C19", "C19b"]     # C19b: element / channel-id / flags round trips
+PROPS_FILES = ["C19", "C19b", "C19c"]     # C19b: element / channel-id / flags round trips; C19c: sequence round trip
 RULE = ("blueprints (1-12 segments over ramp, sine, gaussian, gaussian_smooth_cutoff and waituntil, names from "
         "overlapping bases with interior digits, absolute and segment-bound markers on both marker channels), elements "
         "(1-3 integer channels, flags) and sequences (1-3 positions, amplitude/offset on every channel, optional delays "
